@@ -6,7 +6,7 @@ from ..refs import values as R4
 
 ID = "C19"
 RULE = ("recurrence rules from seeded generation: every FREQ; COUNT xor UNTIL (date, floating, UTC) or neither; INTERVAL; each BYxxx part with 1-4 values "
-        "positive and negative incl. range ends and zero; ordinal weekdays +-1..53; WKST; leap-month BYMONTH + RSCALE/SKIP; keys in random case; scalar vs "
+        "positive and negative incl. range ends and zero; ordinal weekdays +-1..53; WKST; leap-month BYMONTH + RSCALE (names in upper, lower and mixed case) / SKIP (with and without RSCALE); keys in random case; scalar vs "
         "list vs tuple values; constructed via keywords, a mapping, item assignment; plus an exhaustive sweep of every single part at each of its boundary "
         "values with every FREQ; decode side also with a trailing ';'. Oracles: RECUR grammar with [RSCALE;]FREQ first (R4), typed part-by-part comparison "
         "after decode, text fixpoint, and first 50 occurrences of dateutil.rrulestr(text) vs dateutil.rrule built from the supplied parts (R9); "
@@ -80,13 +80,17 @@ def gen_rule(rng):
     if rng.randrange(3) == 0:
         parts["WKST"] = shape(rng, [rng.choice(WD)])
     rfc7529 = False
-    if rng.randrange(8) == 0:
+    if rng.randrange(6) == 0:
         rfc7529 = True
-        parts["RSCALE"] = ("scalar", rng.choice(("GREGORIAN", "HEBREW", "CHINESE")))
+        # RSCALE names are text: CLDR spells the calendar names in lower case, RFC 7529's examples in upper case
+        parts["RSCALE"] = shape(rng, [rng.choice(("GREGORIAN", "HEBREW", "CHINESE", "hebrew", "islamic-civil", "Ethiopic", "gregorian", "X-verif-Cal"))])
         if rng.randrange(2):
-            parts["SKIP"] = ("scalar", rng.choice(("OMIT", "BACKWARD", "FORWARD")))
+            parts["SKIP"] = shape(rng, [rng.choice(("OMIT", "BACKWARD", "FORWARD"))])
         if rng.randrange(2):
             parts["BYMONTH"] = shape(rng, [rng.choice(("5L", "1", "12L", 3))])
+    elif rng.randrange(12) == 0:
+        # "any combination of rule parts": SKIP supplied without RSCALE is still a part the caller supplied
+        parts["SKIP"] = shape(rng, [rng.choice(("OMIT", "BACKWARD", "FORWARD"))])
     if rng.randrange(12) == 0:
         # the classic "n-th working day" family, so that BYSETPOS is also expanded
         for n in ("BYSECOND", "BYMINUTE", "BYHOUR", "BYMONTHDAY", "BYYEARDAY", "BYWEEKNO", "BYMONTH"):
